@@ -54,7 +54,7 @@ man = {
     'engines': ENGINES_META,
     'checks': checks,
     'notes': 'Deterministic simulation with fault injection (DESIGN.md). Exit 0 = held on everything explored; exit 1 + '
-             'VIOLATION line = violation not listed in known_findings.jsonl; exit 2 + HARNESS-ERROR = the machinery failed.',
+             'VIOLATION line = violation not listed in known_findings.txt; exit 2 + HARNESS-ERROR = the machinery failed.',
     'not_applicable': na,
 }
 path = os.path.join(os.path.dirname(os.path.dirname(os.path.abspath(__file__))), 'MANIFEST.json')
